@@ -882,3 +882,12 @@ def flags_after_chain(body, blocks):
                 else:
                     known[s_['lhs']['l']] = ('bool', str(rv['o']['c']).endswith('true'))
     return known
+
+
+def peel_not(du, org, lab, depth=3):
+    """(origin, label) with leading `!` removed: `if !c` on the true edge is `c` on the false edge."""
+    while depth and org.get('k') == 'unop' and org['rv'].get('op') == 'Not' and lab and lab[0] == 'bool':
+        org = du.origin(org['rv']['o'])
+        lab = ('bool', not lab[1])
+        depth -= 1
+    return org, lab
